@@ -56,6 +56,10 @@ class TroughSuite:
         for k in (2, 3, 4, 8):
             for seq in ([k + 2, 2 * k + 1, 3], [1, k + 1, 4 * k + 3], [0, 3 * k, k], [2 * k - 1, 2 * k + 1]):
                 cases.append({"n": seq[0], "more": seq[1:], "wells": wells_arg(rng, k, rng.choice(["list", "list", "2d_col"]))})
+        # the caller changes the returned list in place, then asks again (same n, same wells)
+        for k in (1, 3, 8):
+            for seq in ([k + 2, k + 2, k + 2], [2 * k, 3, 2 * k, 3], [5, 0, 5]):
+                cases.append({"n": seq[0], "more": seq[1:], "mutate": True, "wells": wells_arg(rng, k, rng.choice(["list", "2d_col", "2d"]))})
         return cases
 
     @staticmethod
@@ -87,7 +91,14 @@ class TroughSuite:
         def one(n):
             try:
                 out = robotools.get_trough_wells(n, wells)
-                return {"err": None, "val": [str(w) for w in out], "is_list": isinstance(out, list)}
+                res = {"err": None, "val": [str(w) for w in out], "is_list": isinstance(out, list),
+                       "flat": all(isinstance(w, str) for w in out)}
+                # the caller owns the returned list: whatever is done to it must not show in later results
+                if isinstance(out, list) and case.get("mutate"):
+                    out.reverse()
+                    out.append("Z99")
+                    del out[:1]
+                return res
             except Exception as e:
                 return {"err": errcode(e), "exc": type(e).__name__}
 
@@ -154,6 +165,8 @@ class TroughSuite:
                 break
         if not obs.get("is_list"):
             bad.append("type: result is not a list")
+        if obs.get("flat") is False:
+            bad.append("type: the result's elements are not well IDs")
         return bad
 
 
